@@ -4,6 +4,7 @@ package main
 
 import (
 	"fmt"
+	"os"
 	"go/ast"
 	"go/parser"
 	"go/token"
@@ -202,12 +203,16 @@ func (env *SpecEnv) eval(e SExpr) Val {
 	case *SLambda:
 		env.fail("lambda is only allowed as the right-hand side of a ghost update")
 	case *STypeAssert:
-		v := env.eval(x.X)
+		v := env.nopol().eval(x.X)
 		ty, _ := env.resolveType(x.Type)
 		if ty == nil {
 			env.fail("bad type in assertion: %s", x.Type)
 		}
-		return Val{T: v.T, S: ex.w.sortOf(ty), Go: ty}
+		ts := ex.w.sortOf(ty)
+		if ts.Kind == KRef && v.S.Kind != KRef {
+			return Val{T: ex.box(v), S: sRef, Go: ty}
+		}
+		return Val{T: v.T, S: ts, Go: ty}
 	}
 	env.fail("cannot evaluate %s", specString(e))
 	return Val{}
@@ -764,6 +769,9 @@ func (env *SpecEnv) ghostField(t types.Type, name string) (*GhostField, string, 
 	c.typeScopeNamed = nt.Origin()
 	gty, gs := c.resolveType(g.Type)
 	key := "g:" + env.ex.w.typeString(nt) + "." + name
+	if strings.Contains(key, " any") && os.Getenv("GVC_DEBUG") != "" {
+		panic("origin type in ghost key " + key)
+	}
 	return g, key, gs, gty
 }
 
